@@ -15,6 +15,7 @@ Theorems (over Model/ListOffsets.lean and Model/Seek.lean):
                           against the partition's first/last offsets exactly when the mode demands it
   seek_no_change_on_error a failed Seek leaves the connection offset unchanged
   offset_roundtrip        Conn.Offset reports a position that Seek maps back to the same connection offset
+  mapping_sources         regenerated field-copy tables of the mapping functions agree with the models' sources
   mapping_exact_*         the field mappings as theorems over Model/Mappings.lean and Model/ListOffsets.lean:
     mapping_exact_offsetFetch_all  nil/empty user map → NULL on the wire → every committed partition (an empty array would give none)
     mapping_exact_offsetFetch      coordinator state → OffsetFetch answer → user response = the state, per requested partition
@@ -37,6 +38,8 @@ import KafkaVerif.Spec.Offsets
 import KafkaVerif.Lemmas.ListOffsets
 import KafkaVerif.Model.Mappings
 import KafkaVerif.Lemmas.Mappings
+import KafkaVerif.Spec.FieldMaps
+import KafkaVerif.Gen.Mappings
 
 namespace KV.Props.C19
 open KV.ListOffsets KV.Seek
@@ -288,6 +291,29 @@ theorem regenerated_constants (p : ReqPart) :
     placeholder p = ⟨p.partition, -1, -1, -1, -1⟩ ∧ firstOffset = -2 ∧ lastOffset = -1 ∧
     seekStart = 0 ∧ seekAbsolute = 1 ∧ seekEnd = 2 ∧ seekCurrent = 3 ∧ dontCheckBit = 2 ^ 30 := by
   refine ⟨rfl, rfl, rfl, rfl, rfl, rfl, rfl, by decide⟩
+
+/-! ## regenerated field copies of the mapping functions -/
+
+section fieldmaps
+open KV.Spec.FieldMaps KV.Gen.Mappings
+
+/-- every user-visible field of Client.Metadata / OffsetFetch / OffsetCommit / ListOffsets and Conn.ReadPartitions
+is copied from the protocol field the models in Model/Mappings.lean copy it from (tables regenerated from the
+source; tolerant to locals, see Spec/FieldMaps.lean) -/
+theorem mapping_sources :
+    allAgree clientMetadata_Broker userBroker = true ∧ allAgree clientMetadata_Partition metaPartition = true ∧
+    allAgree clientMetadata_Topic metaTopic = true ∧ allAgree clientMetadata_MetadataResponse metaResponse = true ∧
+    allAgree clientMetadata_Request metaRequest = true ∧
+    allAgree readBrokerMetadata_Broker userBroker = true ∧
+    allAgree readTopicMetadatav1_Partition connPartition = true ∧ allAgree readTopicMetadatav6_Partition connPartitionV6 = true ∧
+    allAgree offsetFetch_OffsetFetchPartition fetchPartition = true ∧ allAgree offsetFetch_OffsetFetchResponse fetchResponse = true ∧
+    allAgree offsetFetch_Request fetchRequest = true ∧
+    allAgree offsetCommit_OffsetCommitPartition commitPartition = true ∧ allAgree offsetCommit_RequestPartition commitRequestPartition = true ∧
+    allAgree offsetCommit_Request commitRequest = true ∧
+    allAgree listOffsets_RequestPartition listRequestPartition = true ∧ allAgree listOffsets_Request listRequest = true ∧
+    allAgree listOffsets_PartitionOffsets listPartitionOffsets = true := by decide
+
+end fieldmaps
 
 /-! ## field mappings (`mapping_exact`) -/
 
